@@ -1,10 +1,10 @@
 CONSTANTS
-  Workers <- Workers_pool
-  NTs <- NTs_pool
-  ThreadNames <- Threads_pool
-  WyFix = FALSE
+  Workers <- Workers_wall0
+  NTs <- NTs_wall0
+  ThreadNames <- Threads_wall0
+  WyFix = TRUE
   AllowSpurious = FALSE
-INIT Init_pool
+INIT Init_wall0
 NEXT Next
 CHECK_DEADLOCK TRUE
 INVARIANTS TypeOK NoBad FuncOnce ReadyImpliesRan GetsAgree DeallocOnce RefsSane ThenAfterReady TsWaitImpliesReady CountersSane AtEnd WhenAllReady WhenAnyReady CombFOnce
